@@ -26,7 +26,7 @@ RULE = ('Random expression trees (depth <= 4, unary signs, parentheses, random s
         'right operand\'s top-level operator binds weaker than the applied one, or an operand is attached in a document, or the chain has length >= 2.')
 ASSUMPTIONS = ['// is not in the property', 'whether an in-place operator consumes a free right operand is not asserted', 'cases whose evaluation divides by zero are discarded']
 SHRINK_LISTS = ('chain', 'dirs')
-REQUIRED_CLASSES = ('inplace-statement', 'operand:self', 'form:plain', 'form:reflected', 'form:inplace', 'form:unary', 'operand:int', 'operand:dec', 'operand:expr', 'operand:attached', 'base:attached',
+REQUIRED_CLASSES = ('reflected-with-expression', 'inplace-statement', 'operand:self', 'form:plain', 'form:reflected', 'form:inplace', 'form:unary', 'operand:int', 'operand:dec', 'operand:expr', 'operand:attached', 'base:attached',
                     'base:free', 'needs-parens')
 
 TOKEN_RE = re.compile(r'\s*(?:(\d{1,3}(?:,\d{3})+(?:\.\d*)?|\d+(?:\.\d*)?)|(.))', re.S)
@@ -176,7 +176,7 @@ def run_case(case: dict) -> Result:
                     operand_doc = root
                 else:
                     continue
-                if form == 'reflected' and vt not in ('int', 'dec'):
+                if form == 'reflected' and vt not in ('int', 'dec', 'expr', 'attached'):
                     continue
                 if form == 'inplace' and vt == 'attached':
                     continue  # a refusal (C19)
@@ -211,6 +211,11 @@ def run_case(case: dict) -> Result:
                     r = +cur if op == 'pos' else -cur
                 elif form == 'plain':
                     r = apply(op, cur, operand)
+                elif form == 'reflected' and hasattr(operand, 'raw_number_add_expr'):
+                    # the reflected method itself, given an expression as the left operand (what Python calls when the left operand's
+                    # own method declines): operand <op> cur
+                    classes.add('reflected-with-expression')
+                    r = getattr(cur, {'+': '__radd__', '-': '__rsub__', '*': '__rmul__', '/': '__rtruediv__'}[op])(operand)
                 elif form == 'reflected':
                     r = apply(op, operand, cur)
                 elif step.get('stmt') and attached and OPS.holder_of(root, cur) is not None:
@@ -312,7 +317,7 @@ def _build(tier: str):
             op = g.pick('+-*/')
             vt = g.pick(['int', 'dec', 'expr', 'expr', 'attached', 'self'] if g.p(0.3) else ['int', 'dec', 'expr', 'expr', 'attached'])
             if form == 'reflected':
-                vt = g.pick(['int', 'dec'])
+                vt = g.pick(['int', 'dec', 'int', 'dec', 'expr', 'attached'])
             if vt == 'int':
                 o = {'vt': 'int', 'v': g.n(-20, 99)}
             elif vt == 'dec':
